@@ -356,34 +356,8 @@ def run(ctx):
     ctx.check(bool(mdef) and norm(mdef[0].value).replace(" ", "") == "self.k+1", "R3", md, ini, "XL_BOMD.__init__", "self.m", "history length m = k + 1", "m != k+1")
 
     # ---------------------------------------------------------------- R4
-    en = repo.mod("seqm/seqm_functions/energy.py")
-    fx = en.func("elec_energy_xl")
-    fs = en.func("elec_energy")
-    Dd, Pp, Ff, hh = sp.symbols("D P F h")
-    fn = md_funcs()
-    envx = {fx.args.args[0].arg: Dd, fx.args.args[1].arg: Pp, fx.args.args[2].arg: Ff, "h": hh}
-    ex = None
-    for st in ast.walk(fx):
-        if isinstance(st, ast.Assign) and norm(st.targets[0]) == "Eelec":
-            ex = to_sympy(st.value, envx, fn)
-    es = None
-    envs = {fs.args.args[0].arg: Pp, fs.args.args[1].arg: Ff, "h": hh}
-    for st in ast.walk(fs):
-        if isinstance(st, ast.Assign) and norm(st.targets[0]) == "Eelec" and "P[:, 0]" not in norm(st.value):
-            es = to_sympy(st.value, envs, fn)
-    if ex is None or es is None:
-        raise AnalysisError("energy.py: Eelec expressions not found")
-    diff = sp.simplify(ex.subs(Dd, Pp) - es)
-    ctx.check(diff == 0, "R4", en, fx, "elec_energy_xl", "Eelec", "E(D,P)|_{D=P} == 1/2 P (h + F) (closed-shell SCF energy summand)",
-              f"shadow energy does not reduce to the SCF energy at D = P: difference {diff}")
-    want = Dd * Ff - sp.Rational(1, 2) * (Ff - hh) * Pp
-    ctx.check(sp.simplify(ex - want) == 0, "R4", en, fx, "elec_energy_xl", "Eelec", "E(D,P) = D F - 1/2 (F - h) P (Niklasson shadow functional)",
-              f"shadow energy summand is {ex}")
-    # h symmetrisation identical in both
-    hx = [norm(st.value) for st in ast.walk(fx) if isinstance(st, ast.Assign) and norm(st.targets[0]) == "h"]
-    hs = [norm(st.value) for st in ast.walk(fs) if isinstance(st, ast.Assign) and norm(st.targets[0]) == "h" and "triu" in norm(st.value)]
-    ctx.check(bool(hx) and bool(hs) and hx[0] == hs[0], "R4", en, fx, "elec_energy_xl", "h", "core Hamiltonian symmetrised identically in both energy functions",
-              f"core Hamiltonian symmetrisation differs: {hx} vs {hs}")
+    from ..assembly import check_energy_functions
+    check_energy_functions(ctx, "R4", which=("xl",))
 
     # ---------------------------------------------------------------- R5
     xi = md.func("XL_BOMD.initialize")
